@@ -161,9 +161,9 @@ class PipelineData(np.ndarray):
         else:
             if time_slice.start is not None:
                 if time_slice.start > 0:
-                    obj.s0 += time_slice.start
+                    obj.s0 += min(time_slice.start, self.n_time)
                 elif time_slice.start < 0:
-                    obj.s0 = self.s0 + self.n_time + time_slice.start
+                    obj.s0 = self.s0 + max(self.n_time + time_slice.start, 0)
             if time_slice.step is not None:
                 obj.fs /= time_slice.step
 
